@@ -182,7 +182,7 @@ fn long_strings() -> Vec<String> {
 }
 /// a long string for a generated value: mostly the lengths up to 533, sometimes the 64 KiB ones
 fn arb_long_string(r: &mut Rng) -> String {
-    let len = if r.chance(1, 6) { LONG_LENS[14 + r.below(3)] } else { LONG_LENS[2 + r.below(12)] };
+    let len = if r.chance(1, 16) { LONG_LENS[14 + r.below(3)] } else { LONG_LENS[2 + r.below(12)] };
     long_string(len, r.below(4) as u32)
 }
 
@@ -1338,6 +1338,10 @@ fn main() {
         meta: Meta::default(),
         oracle_only: 0,
     };
+    // cases with 64 KiB strings are heavy for coqc: small shards spread them over the workers
+    run.rt.shard_cap_set(100);
+    run.reser.shard_cap_set(120);
+    run.ctx.shard_cap_set(100);
 
     // corpus: the inputs of D7 / D14 and the excluded option-in-option class, always first
     run_rt::<Option<u8>>(&mut run, &Some(3), "Option<u8>");
